@@ -484,7 +484,7 @@ class Tracer:
             st['creads'].add((reader_fid, name))
         lw = a.last.get(name)
         i0 = lw[1] if lw is not None else 0
-        a.live_obs.append((i0, j, name, reader_fid))
+        a.live_obs.append((i0, j, name, reader_fid, name_id))
 
     def rd(self, name_id, name, value):
         a = self.stack[-1]
